@@ -188,6 +188,7 @@ func r06EverySegmentRouted(c *core.Ctx) {
 	}
 	ringIdx := core.ObjOf(info, ringLoop.Key)
 	ring := core.ObjOf(info, ringLoop.Value)
+	outerInfo, outerRing, outerRingIdx := info, ring, ringIdx
 	// the only skip of a ring: `if len(levelMap) == 0 { continue }`
 	skips := 0
 	badSkip := ""
@@ -204,11 +205,58 @@ func r06EverySegmentRouted(c *core.Ctx) {
 		}
 	}
 	c.Check(R, "no-ring-skipped/"+f.Name, ringLoop.Pos(), badSkip == "" && skips <= 1, "rings are only skipped when no level is alive any more", "a ring can be skipped at "+badSkip)
-	// vertex loop
+	// vertex loop: in the ring loop itself, or in a helper of the package that the ring loop hands the ring to
+	// (the helper's parameters then stand for ring and ringIdx)
 	var vloop *ast.RangeStmt
+	hostBody := ringLoop.Body
+	routedAt := token.NoPos // position in the ring loop from which the ring is routed
 	for _, s := range ringLoop.Body.List {
 		if r, ok := s.(*ast.RangeStmt); ok && core.ObjOf(info, r.X) == ring && ring != nil {
 			vloop = r
+			routedAt = r.Pos()
+		}
+	}
+	if vloop == nil {
+		for _, s := range ringLoop.Body.List {
+			ast.Inspect(s, func(n ast.Node) bool {
+				call, ok := n.(*ast.CallExpr)
+				if !ok || vloop != nil {
+					return true
+				}
+				callee := core.Callee(info, call)
+				if callee == nil {
+					return true
+				}
+				h := c.P.ByObj[callee.Origin()]
+				if h == nil || h.Decl.Body == nil || h.Pkg != f.Pkg || len(core.CallsIn(h.Pkg.TypesInfo, h.Decl, "pointindex.PointIndex.SnapClosestPoints")) == 0 {
+					return true
+				}
+				hs := h.Obj.Type().(*types.Signature)
+				var hring, hidx types.Object
+				for i, a := range call.Args {
+					if i >= hs.Params().Len() {
+						break
+					}
+					switch core.ObjOf(info, a) {
+					case ring:
+						hring = hs.Params().At(i)
+					case ringIdx:
+						hidx = hs.Params().At(i)
+					}
+				}
+				if hring == nil || hidx == nil {
+					return true
+				}
+				for _, hsn := range h.Decl.Body.List {
+					if r, ok := hsn.(*ast.RangeStmt); ok && core.ObjOf(h.Pkg.TypesInfo, r.X) == hring {
+						if assignedCount(h.Pkg.TypesInfo, h.Decl.Body, hring) == 0 && assignedCount(h.Pkg.TypesInfo, h.Decl.Body, hidx) == 0 {
+							vloop, hostBody, routedAt = r, h.Decl.Body, s.Pos()
+							info, ring, ringIdx = h.Pkg.TypesInfo, hring, hidx
+						}
+					}
+				}
+				return true
+			})
 		}
 	}
 	if vloop == nil {
@@ -226,7 +274,7 @@ func r06EverySegmentRouted(c *core.Ctx) {
 			return true
 		}
 		if o := core.ObjOf(info, e); o != nil {
-			if def := singleDef(info, ringLoop.Body, o); def != nil && canon(def) == "len("+ring.Name()+")" {
+			if def := singleDef(info, hostBody, o); def != nil && canon(def) == "len("+ring.Name()+")" {
 				// defined after the last assignment to ring?
 				return true
 			}
@@ -324,12 +372,12 @@ func r06EverySegmentRouted(c *core.Ctx) {
 	// the ring used is the normalised one: ring = ensureCorrectWindingOrder(ring, !isOuter), isOuter := ringIdx == 0
 	okNorm := false
 	for _, s := range ringLoop.Body.List {
-		if as, ok := s.(*ast.AssignStmt); ok && len(as.Lhs) == 1 && len(as.Rhs) == 1 && core.ObjOf(info, as.Lhs[0]) == ring {
-			if call, ok := as.Rhs[0].(*ast.CallExpr); ok && core.IsCallTo(info, call, "snap.ensureCorrectWindingOrder") && core.ObjOf(info, call.Args[0]) == ring {
+		if as, ok := s.(*ast.AssignStmt); ok && len(as.Lhs) == 1 && len(as.Rhs) == 1 && core.ObjOf(outerInfo, as.Lhs[0]) == outerRing {
+			if call, ok := as.Rhs[0].(*ast.CallExpr); ok && core.IsCallTo(outerInfo, call, "snap.ensureCorrectWindingOrder") && core.ObjOf(outerInfo, call.Args[0]) == outerRing {
 				if u, ok := ast.Unparen(call.Args[1]).(*ast.UnaryExpr); ok && u.Op == token.NOT {
-					if o := core.ObjOf(info, u.X); o != nil {
-						if def := singleDef(info, ringLoop.Body, o); def != nil && canon(def) == ringIdx.Name()+"==0" {
-							okNorm = as.Pos() < vloop.Pos()
+					if o := core.ObjOf(outerInfo, u.X); o != nil {
+						if def := singleDef(outerInfo, ringLoop.Body, o); def != nil && canon(def) == outerRingIdx.Name()+"==0" {
+							okNorm = as.Pos() < routedAt
 						}
 					}
 				}
@@ -885,27 +933,13 @@ func r11PresentLevelHasGeometry(c *core.Ctx) {
 	if f == nil || conv == nil || sp == nil {
 		return
 	}
-	// the map passed to the converter in the return statement
-	var res ssa.Value
-	for _, b := range f.SSA.Blocks {
-		for _, in := range b.Instrs {
-			if ret, ok := in.(*ssa.Return); ok && len(ret.Results) == 1 {
-				if call, ok := ret.Results[0].(*ssa.Call); ok && call.Call.StaticCallee() != nil && call.Call.StaticCallee().Origin() == conv.SSA {
-					res = call.Call.Args[0]
-				}
-			}
-		}
-	}
+	res, updates, _ := resultMapUpdates(c, f, conv)
 	if res == nil {
 		c.Bad(R, "result-map/"+f.Name, f.Decl.Pos(), "addPointsAndSnap does not return FloatPolygonsToGeomPolygonsForAllKeys(<map>)")
 		return
 	}
 	n := 0
-	for _, r := range *res.Referrers() {
-		mu, ok := r.(*ssa.MapUpdate)
-		if !ok || mu.Map != res {
-			continue
-		}
+	for _, mu := range updates {
 		n++
 		construct := fmt.Sprintf("stored-level-is-non-empty/%s#%d", f.Name, n)
 		okc := false
@@ -918,7 +952,7 @@ func r11PresentLevelHasGeometry(c *core.Ctx) {
 		}
 		if !okc {
 			// dominated by len(value) > 0
-			for _, b := range f.SSA.Blocks {
+			for _, b := range mu.Parent().Blocks {
 				i := core.BlockIf(b)
 				if i == nil {
 					continue
@@ -972,6 +1006,43 @@ func r11PresentLevelHasGeometry(c *core.Ctx) {
 	}
 	c.Check(R, "result-copied-per-level/"+sp.Name, sp.Decl.Pos(), okCopy, "result[tmIDsByLevels[level]] = polygons of that level", "SnapPolygon does not copy each level's polygons under that level's tile matrix id")
 	c.Floor(R, 4)
+}
+
+// resultMapUpdates finds the map addPointsAndSnap hands to the converter in its return statement and every store
+// into that map, in addPointsAndSnap itself or in a module helper the map is handed to (sorted by position).
+func resultMapUpdates(c *core.Ctx, f, conv *core.Func) (ssa.Value, []*ssa.MapUpdate, map[ssa.Value]bool) {
+	var res ssa.Value
+	for _, b := range f.SSA.Blocks {
+		for _, in := range b.Instrs {
+			if ret, ok := in.(*ssa.Return); ok && len(ret.Results) == 1 {
+				if call, ok := ret.Results[0].(*ssa.Call); ok && call.Call.StaticCallee() != nil && call.Call.StaticCallee().Origin() == conv.SSA {
+					res = call.Call.Args[0]
+				}
+			}
+		}
+	}
+	if res == nil {
+		return nil, nil, nil
+	}
+	flow := core.FlowOpts{Idx: c.P.SiteIndex(c.P.VTA()), Follow: func(g *ssa.Function) bool { return core.IsModPath(core.FuncPkgPath(g)) && g.Origin() != conv.SSA && g != conv.SSA }}.Run([]ssa.Value{res})
+	var updates []*ssa.MapUpdate
+	hosts := map[*ssa.Function]bool{f.SSA: true}
+	for v := range flow {
+		if prm, ok := v.(*ssa.Parameter); ok && prm.Parent() != nil {
+			hosts[prm.Parent()] = true
+		}
+	}
+	for h := range hosts {
+		for _, b := range h.Blocks {
+			for _, in := range b.Instrs {
+				if mu, ok := in.(*ssa.MapUpdate); ok && flow[mu.Map] {
+					updates = append(updates, mu)
+				}
+			}
+		}
+	}
+	sort.Slice(updates, func(i, j int) bool { return updates[i].Pos() < updates[j].Pos() })
+	return res, updates, flow
 }
 
 func isConstInt(v ssa.Value, want int64) bool {
@@ -1140,33 +1211,54 @@ func r12RingSizeGuards(c *core.Ctx) {
 		return true
 	})
 	c.Check(R, "points-and-lines-only-when-kept/"+aps.Name, call.Pos(), keepOK && napp == 1, "collapsed parts are appended (to the level's own list) only under config.KeepPointsAndLines", "points and lines are appended regardless of the keep-points-and-lines option (or not at all)")
-	// points and lines come after the polygons: the loop moving them into the result follows the loop storing the polygons
-	{
-		var plMap types.Object
-		ast.Inspect(loop.Body, func(n ast.Node) bool {
-			if as, ok := n.(*ast.AssignStmt); ok && len(as.Rhs) == 1 {
-				if app, ok := as.Rhs[0].(*ast.CallExpr); ok && core.IsBuiltinCall(info, app, "append") && len(app.Args) == 2 && core.ObjOf(info, app.Args[1]) == plRes {
-					if ix, ok := as.Lhs[0].(*ast.IndexExpr); ok {
-						plMap = core.ObjOf(info, ix.X)
-					}
+	// points and lines come after the polygons: once a collapsed part has been appended to a level's list in the
+	// result map, no path leads to a store of that level's polygons (which would overwrite it)
+	if conv := c.P.Funcs["geomhelp.FloatPolygonsToGeomPolygonsForAllKeys"]; conv != nil {
+		res, updates, flow := resultMapUpdates(c, aps, conv)
+		var plSites, polySites []ssa.Instruction
+		why := ""
+		for _, mu := range updates {
+			isPL := false
+			if ac, isCall := mu.Value.(*ssa.Call); isCall {
+				if _, isApp := isBuiltinCall(ac, "append"); isApp && len(sliceLitElems(ac.Call.Args[1])) >= 1 {
+					isPL = true
 				}
 			}
-			return true
-		})
-		posPoly, posPL := token.NoPos, token.NoPos
-		for _, st := range aps.Decl.Body.List {
-			r, ok := st.(*ast.RangeStmt)
-			if !ok {
-				continue
+			site := ssa.Instruction(mu)
+			if mu.Parent() != aps.SSA {
+				site = nil
+				for _, bb := range aps.SSA.Blocks {
+					for _, in := range bb.Instrs {
+						if ci, ok := in.(ssa.CallInstruction); ok && ci.Common().StaticCallee() == mu.Parent() {
+							for _, a := range ci.Common().Args {
+								if flow[a] {
+									site = in
+								}
+							}
+						}
+					}
+				}
+				if site == nil {
+					why = "a store into the result map happens in " + mu.Parent().String() + ", which addPointsAndSnap does not call directly with the map"
+					continue
+				}
 			}
-			if plMap != nil && core.ObjOf(info, r.X) == plMap {
-				posPL = r.Pos()
-			}
-			if len(core.CallsIn(info, r.Body, "snap.matchInnersToPolygons")) == 1 {
-				posPoly = r.Pos()
+			if isPL {
+				plSites = append(plSites, site)
+			} else {
+				polySites = append(polySites, site)
 			}
 		}
-		c.Check(R, "points-and-lines-after-polygons/"+aps.Name, aps.Decl.Pos(), posPoly.IsValid() && posPL.IsValid() && posPL > posPoly, "collapsed parts are appended after the polygons of the level", "collapsed parts are not appended after the polygons")
+		okOrder := res != nil && why == "" && len(plSites) >= 1 && len(polySites) >= 1
+		for _, pl := range plSites {
+			for _, ps := range polySites {
+				if found, _ := (core.Search{Fn: aps.SSA, From: pl, Target: instrIs(ps)}).Run(); found {
+					okOrder = false
+					why = "a store of a level's polygons at " + c.P.Pos(ps.Pos()) + " can follow the append of collapsed parts at " + c.P.Pos(pl.Pos())
+				}
+			}
+		}
+		c.Check(R, "points-and-lines-after-polygons/"+aps.Name, aps.Decl.Pos(), okOrder, fmt.Sprintf("%d append(s) of collapsed parts, none followed by a store of polygons (%d)", len(plSites), len(polySites)), "collapsed parts are not appended after the polygons: "+why)
 	}
 	c.Floor(R, 6)
 }
